@@ -226,3 +226,13 @@ func VH_C05_ops() {
 // VItems exposes the queue's items without locking (exporter for harness
 // predicates evaluated by the scheduler).
 func (q *TaskQueue) VItems() []task.Task { return q.items }
+
+// VNoWorkers makes TaskQueue.Start record the start instead of spawning the
+// worker (for harnesses that only look at which queues exist and are started).
+var VNoWorkers bool
+var VStarted []string
+
+func vNoWorkers() bool { return VNoWorkers }
+
+//verif:stub (*$R/pkg/task/queue.TaskQueue).Start if vNoWorkers
+func vStartStub(q *TaskQueue) { VStarted = append(VStarted, q.Name) }
